@@ -109,6 +109,16 @@ DESCR = {
  "C09-f": ("TURNS/TCP: cleanup after a failed TLS handshake closes a nil locConn instead of the dialed socket", "turns: URL over TCP, TCP connect succeeds, TLS handshake fails for a reason other than cancellation"),
  "C10-e": ("the tick of a controlled lite agent runs on the timer goroutine instead of inside the task loop", "lite agent in the controlled role; a tick while another task / API call / inbound message is in progress"),
  "C10-f": ("GetRemoteCandidates hands out the agent's own array (capacity-clipped slice)", "caller keeps the result; a signalled candidate then supersedes a peer-reflexive one (in-place compaction)"),
+ "C11-e": ("GatherCandidates no longer cancels a previous, not yet started cycle", "a second GatherCandidates call before the first call's goroutine has marked the agent Gathering"),
+ "C11-f": ("an overlapping second closer skips waiting for the teardown (loop.Done already closed)", "two overlapping Close/GracefulClose calls while the teardown is slow (gathering in flight)"),
+ "C12-e": ("the universal mux consumes valid XOR-MAPPED-ADDRESS responses of a known STUN server instead of passing them on", "UniversalUDPMux, a prior GetXORMappedAddr(S), a conn that wrote to S, then S's Binding success response"),
+ "C12-f": ("the address-map key drops the IPv6 zone", "two link-local peers with the same IP and port on different interfaces, each written to by a different conn"),
+ "C13-e": ("the netip.AddrPort write path is admitted with a bare counter increment (does not wait for an abort in progress)", "AddrPort-capable socket; another user's WriteToAddrPort while a blocked write is being aborted"),
+ "C13-f": ("tcpPacketConn.AddConn re-arms the alive timer that taking a handle had stopped", "conn created from STUN, user takes a handle, a second TCP connection arrives, the alive duration elapses"),
+ "C14-e": ("TCP mux reads the first frame through a throw-away bufio reader", "a client whose further frames are coalesced with its first binding request"),
+ "C14-f": ("activeTCPConn frames in place in a receiveMTU-sized buffer", "payload of exactly 8191 or 8192 bytes over active TCP"),
+ "C15-e": ("first-frame buffer of handleConn recycled through a sync.Pool while still queued", "first frame of A unread (provisional conn) when another connection's handleConn reuses the buffer"),
+ "C15-f": ("closing one of two local-address conns of a ufrag drops the whole per-ufrag map", "same ufrag registered on two local IPs of a wildcard listener; one closed; a new client on the other"),
 }
 res = {}
 for ln in open('/verif/.work/confirm_results.txt'):
